@@ -3,10 +3,19 @@
 #include "res0_inv_post.spec.h"
 #include "res0.spec.h"       /* RES0_HEAD_OK: what res0_unpack establishes (unit res0_unpack) */
 /* bounds of this stand-in (kind B) */
+#ifndef MAXPARTS
 #define MAXPARTS 3      /* partition classes */
+#endif
+#ifndef MAXPV
 #define MAXPV 4         /* classification values (= decodemap rows) */
+#endif
 #define MAXDIM 2        /* classification book dimensions (partitions per class word) */
+#ifndef MAXN
 #define MAXN 4          /* partitions in the block */
+#endif
+#ifndef MAXMASK
+#define MAXMASK 255     /* cascade stage mask (8 stages) */
+#endif
 static int ilog_(unsigned v) { int r = 0; while (v) { r++; v >>= 1; } return r; }
 /* the look as res0_look builds it from an info that passed res0_unpack */
 static vorbis_look_residue0 *build_look(void) {
@@ -23,7 +32,7 @@ static vorbis_look_residue0 *build_look(void) {
   for (int p = 0; p < MAXPARTS; p++) {
     look->partbooks[p] = NULL;
     if (p < look->parts) {
-      __CPROVER_assume(info->secondstages[p] >= 0 && info->secondstages[p] <= 255);
+      __CPROVER_assume(info->secondstages[p] >= 0 && info->secondstages[p] <= MAXMASK);
       int st = ilog_(info->secondstages[p]);
       if (st) {
         if (st > maxstage) maxstage = st;
